@@ -225,7 +225,7 @@ pub(crate) mod kani_verif {
         b
     }
 
-    fn check_from<const L: usize>() {
+    fn check_from<const L: usize>(fixed_codes: Option<[u8; L]>) {
         CHILD_CALLS.store(0, Ordering::Relaxed);
         RND_CALLS.store(0, Ordering::Relaxed);
         KP_CALLS.store(0, Ordering::Relaxed);
@@ -235,7 +235,8 @@ pub(crate) mod kani_verif {
         let mut pb = [0xffu8; MAX_ALLOWED_HSS_LEVELS];
         let mut i = 0;
         while i < L {
-            codes[i] = any_lms_code(true);
+            // heights: fixed by the harness (quick tier: concrete mixed heights keep CBMC's formula small) or symbolic
+            codes[i] = match fixed_codes { Some(f) => f[i], None => any_lms_code(true) };
             hs[i] = spec_height_of_lms_code(codes[i]).unwrap();
             pb[i] = (codes[i] << 4) | 4;
             i += 1;
@@ -244,7 +245,7 @@ pub(crate) mod kani_verif {
         kani::assume(spec_total_height(&hs) > 63 || (c as u128) < spec_total_leaves(&hs));
         let mut rk = ReferenceImplPrivateKey::<HF>::default();
         rk.compressed_used_leafs_indexes = CompressedUsedLeafsIndexes::new(c);
-        rk.compressed_parameter = CompressedParameterSet::from_slice(&pb).unwrap();
+        rk.compressed_parameter = crate::hss::reference_impl_private_key::kani_verif::cps_from_array(pb);
         // with aux data of the top tree present: it must be dropped once the first child public key has been signed, so that
         // no later authentication path (other trees) is ever built from the top tree's cache (C10)
         let mut aux = Some(MutableExpandedAuxData::default());
@@ -303,7 +304,7 @@ pub(crate) mod kani_verif {
     }
 
     macro_rules! from_harness {
-        ($name:ident, $l:expr) => {
+        ($name:ident, $l:expr, $codes:expr) => {
             #[kani::proof]
             #[kani::stub(zeroize::optimization_barrier, no_barrier)]
             #[kani::stub(<[u8; 32] as tinyvec::Array>::default, fast_default)]
@@ -312,20 +313,25 @@ pub(crate) mod kani_verif {
             #[kani::stub(crate::hss::reference_impl_private_key::generate_signature_randomizer, stub_rnd)]
             #[kani::stub(crate::lms::generate_key_pair, stub_key_pair)]
             #[kani::stub(crate::lms::signing::LmsSignature::sign, stub_sign)]
+            #[kani::stub(crate::hss::reference_impl_private_key::CompressedUsedLeafsIndexes::to, crate::hss::reference_impl_private_key::kani_verif::contract_to)]
             #[kani::unwind(60)]
             fn $name() {
-                check_from::<$l>();
+                check_from::<$l>($codes);
             }
         };
     }
-    // @h name=c03_from_l1 props=C03,C07,C01,C05,C13,C10 tier=quick kind=proved cfg=L2w8 timeout=2400 funcs=HssPrivateKey::from contract="expanded key of counter c: level i tree = derive(level i-1 (seed,I), digit i-1), current leaf = digit i; child public key i signed by level i-1 leaf digit i-1 over its serialisation; used-leaf vector = digits (+1 above bottom); every counter, all heights; callees by contract; L=1"
-    from_harness!(c03_from_l1, 1);
-    // @h name=c03_from_l2 props=C03,C07!,C01!,C05,C13!,C10! tier=quick kind=proved cfg=L2w8 timeout=2400 funcs=HssPrivateKey::from contract="same, L=2"
-    from_harness!(c03_from_l2, 2);
-    // @h name=c03_from_l3 props=C03,C07,C01,C05,C13,C10 tier=thorough kind=proved cfg=L3w8 timeout=3600 funcs=HssPrivateKey::from contract="same, L=3"
-    from_harness!(c03_from_l3, 3);
-    // @h name=c03_from_l8 props=C03,C07,C01,C05,C13,C10 tier=thorough kind=proved cfg=w8 timeout=7200 funcs=HssPrivateKey::from contract="same, L=8"
-    from_harness!(c03_from_l8, 8);
+    // @h name=c03_from_l1 props=C03,C07,C01,C05,C13,C10 tier=quick kind=proved cfg=L2w8 timeout=2400 funcs=HssPrivateKey::from contract="expanded key of counter c: level i tree = derive(level i-1 (seed,I), digit i-1), current leaf = digit i; child public key i signed by level i-1 leaf digit i-1 over its serialisation; used-leaf vector = digits (+1 above bottom); aux dropped after the top tree's signature; every counter; callees by contract (incl. CompressedUsedLeafsIndexes::to, proved in c13_to_*); L=1, height 10"
+    from_harness!(c03_from_l1, 1, Some([6u8]));
+    // @h name=c03_from_l2 props=C03,C07!,C01!,C05,C13!,C10! tier=quick kind=proved cfg=L2w8 timeout=2400 funcs=HssPrivateKey::from contract="same, L=2, heights (10,5): every counter 0..2^15-1"
+    from_harness!(c03_from_l2, 2, Some([6u8, 5u8]));
+    // @h name=c03_from_l2_mixed props=C03,C07,C01,C05,C13,C10 tier=quick kind=proved cfg=L2w8 timeout=2400 funcs=HssPrivateKey::from contract="same, L=2, heights (2,25)"
+    from_harness!(c03_from_l2_mixed, 2, Some([1u8, 9u8]));
+    // @h name=c03_from_l2_sym props=C03,C07,C01,C05,C13,C10 tier=thorough kind=proved cfg=L2w8 timeout=7200 funcs=HssPrivateKey::from contract="same, L=2, all height pairs (symbolic)"
+    from_harness!(c03_from_l2_sym, 2, None);
+    // @h name=c03_from_l3 props=C03,C07,C01,C05,C13,C10 tier=thorough kind=proved cfg=L3w8 timeout=7200 funcs=HssPrivateKey::from contract="same, L=3, heights (5,10,5)"
+    from_harness!(c03_from_l3, 3, Some([5u8, 6u8, 5u8]));
+    // @h name=c03_from_l8 props=C03,C07,C01,C05,C13,C10 tier=thorough kind=proved cfg=w8 timeout=14400 funcs=HssPrivateKey::from contract="same, L=8, heights (5,5,5,5,5,5,5,10)"
+    from_harness!(c03_from_l8, 8, Some([5u8, 5, 5, 5, 5, 5, 5, 6]));
 
     // ================================================================== C10/C11: aux front end (get_expanded_aux_data)
     /// total for every buffer; a fresh buffer (first byte 0) is shrunk to the hash-sigs length, zeroed and marked, and only
